@@ -13,6 +13,7 @@ from cxxheaderparser.options import ParserOptions
 
 c11 = importlib.import_module("props.c11")
 
+TECHNIQUE = 'Lean 4: fold-of-concatenation, extern transparency, namespace chain split and re-open theorems on the SimpleCxxVisitor model, loop-carried state of the top-level loop; the whole-parse composition is decided by a merge oracle on the implementation and correspondence on pairs (not a theorem)'
 LEAN_TARGET = "CxxModel.Props.C12"
 THEOREMS = ["Cxx.C12_fold_append", "Cxx.C12_extern_transparent", "Cxx.C12_open_split", "Cxx.C12_open_existing", "Cxx.C12_top_level_carries_only_doc",
             "Cxx.C12_keep_doxygen"]
